@@ -288,7 +288,7 @@ func (w *World) contractFor(full string) *Contract {
 // ---------- struct relevance pre-pass ----------
 
 func structKey(t types.Type) string {
-	return types.TypeString(t, nil)
+	return types.TypeString(types.Unalias(t), nil)
 }
 
 func (w *World) markSSAField(t types.Type, idx int) {
@@ -383,6 +383,7 @@ func (w *World) markAll(t types.Type) {
 // ---------- sorts ----------
 
 func (w *World) structInfo(t types.Type) *StructInfo {
+	t = types.Unalias(t)
 	k := structKey(t)
 	if si, ok := w.structs[k]; ok {
 		return si
